@@ -100,6 +100,15 @@ def scn(params):
             ident += 1
             tt += rng.choice([20000, 100000, 300000, 700000, 1500000])
         t.noffered = ident - 1
+        if cfg.get("tun_write_faults"):
+            # the tun device refuses a frame now and then (interface down for a moment: EIO, input queue full: ENOBUFS,
+            # EAGAIN): that frame may be lost; what the device is given afterwards is still judged like every other write
+            fr_ = random.Random(cfg["tun_write_faults"])
+            tf = k.now + 2 * US
+            while tf < t.t0 + D:
+                who = fr_.choice(["srv"] + [c.name for c in t.clients])
+                k.at(tf, k.fail_tun_writes, who, fr_.choice([5, 105, 11]), fr_.choice([1, 1, 1, 2]))
+                tf += fr_.choice([500000, 1500000, 4000000])
         return t.t0 + D + 25 * US
 
     t = tunnelscn.run_tunnel("c01-%d" % params["idx"], cfg, seed, plan)
@@ -111,6 +120,7 @@ def scn(params):
             return out
         viol, st = integrity_violations(k, {c.name: ip for c, ip in zip(t.clients, t.tun_ips)})
         out["stats"].update(st)
+        out["stats"]["tun_writes_refused_by_injection"] = sum(1 for ev in k.log if ev[1] == "tun_write_error")
         for (ts, who, w) in viol[:3]:
             out["violations"].append(("C01:fabricated-frame:%s" % ("server" if who == "srv" else "client"),
                                       "%s wrote a %d-byte frame to its tun that nobody else ever read from a tun" % (who, len(w)),
@@ -158,7 +168,8 @@ def run(ctx):
     res = core.Result()
     res.rule = ("scenario = real iodine client(s) + real iodined on the simulated OS through a seeded fault relay "
                 "(loss/burst/dup/delay/reorder/id-rewrite/impatient re-send, raw-mode link faults) for 60 virtual s "
-                "with frames of 1..3000 bytes offered on both tun devices (and client-to-client); oracle: every "
+                "with frames of 1..3000 bytes offered on both tun devices (and client-to-client), in a quarter of the scenarios with "
+                "write() on a tun device failing now and then (EIO/ENOBUFS/EAGAIN); oracle: every "
                 "tun_write is byte-identical to a frame read earlier from a tun device (of the peer, another client, or - hairpin via the server - its own). non-trivial = scenario in "
                 "which >=1 multi-fragment frame was delivered in each direction while >=1 fault decision was taken "
                 "(or a raw-mode run with >=4 deliveries); distinct over (qtype, upstream codec, downstream codec, "
@@ -169,6 +180,8 @@ def run(ctx):
     plist = []
     for i in range(n):
         cfg = tunnelscn.gen_config(rng, i + ctx.seed, faults=True, nclients_max=3)
+        if i % 4 == 1:
+            cfg["tun_write_faults"] = ctx.seed * 1000003 + i
         plist.append({"idx": i, "seed": ctx.seed * 100000 + i, "cfg": cfg})
     if ctx.replay:
         plist = [ctx.replay["witness"]["params"]]
